@@ -5,7 +5,7 @@ cd /verif
 out=mutants/REVERTED_FIXES.md
 echo "# Reverted fixes as mutants (tools/revert_campaign.sh, $(date -u +%F))" > $out
 echo "" >> $out
-echo "Each 'fix:' commit of /repo is reversed on a scratch copy (the repository suite is known to pass with the original code) and the quick check of its property is run against the copy." >> $out
+echo "Each 'fix:' commit of /repo is reversed on a scratch copy (the repository suite is known to pass with the original code) and the quick check of its property is run against the copy. Where a later fix rewrote the same lines the reverse patch no longer applies; the fix is then reversed together with those later fixes (newest first) in a scratch git worktree." >> $out
 echo "" >> $out
 echo "| commit | property | result | subject |" >> $out
 echo "|---|---|---|---|" >> $out
@@ -16,6 +16,20 @@ grep '^fixed:' KNOWN_FINDINGS.txt | while read -r line; do
   [ -z "$subj" ] && { echo "| $sha | $prop | UNKNOWN-COMMIT | |" >> $out; continue; }
   git -C /repo diff $sha $sha~1 > /dev/shm/revert_$sha.diff
   res=$(tools/mutant.sh /dev/shm/revert_$sha.diff $prop 2>&1 | grep -E "^(CAUGHT|MISSED|HARNESS|PATCH)" | head -1 | cut -c1-160)
+  case "$res" in PATCH-FAILED*)
+    # the lines were rewritten by later fixes: reverse those too (newest first), in a scratch worktree, and test the combination
+    wt=$(mktemp -d /dev/shm/acryo-rv.XXXXXX); git -C /repo worktree add -q --detach $wt HEAD
+    files=$(git -C /repo show --format= --name-only $sha | grep '^acryo/')
+    later=$(git -C /repo log --format=%h $sha..HEAD -- $files | tr '\n' ' ')
+    ok=1; for c in $later $sha; do (cd $wt && git revert --no-commit $c >/dev/null 2>&1) || { ok=0; break; }; done
+    if [ $ok = 1 ]; then
+      (cd $wt && git diff --cached -- acryo) > /dev/shm/revert_$sha.diff
+      res="$(tools/mutant.sh /dev/shm/revert_$sha.diff $prop 2>&1 | grep -E "^(CAUGHT|MISSED|HARNESS|PATCH)" | head -1 | cut -c1-120) [reversed together with the later fixes on the same lines: $later]"
+    else
+      res="PATCH-STALE (rewritten by later fixes: $later)"
+    fi
+    git -C /repo worktree remove --force $wt; git -C /repo worktree prune;;
+  esac
   echo "| $sha | $prop | ${res//|/\\|} | $subj |" >> $out
   echo "$sha $prop ${res:0:60}"
   rm -f /dev/shm/revert_$sha.diff
